@@ -91,7 +91,7 @@ func TestVerifC13Calibrate(t *testing.T) {
 	}
 	var ops []op
 	ops = append(ops, op{0, 0}, op{1, 0}, op{2, 0})
-	for _, c := range []int{vOK, vPrep, vStep, vRead, vRet, vReadPrep, vBegin, vCommit, vRollback} {
+	for _, c := range []int{vOK, vPrep, vStep, vRead, vRet, vReadPrep, vBegin, vCommit, vRollback, vEmpty} {
 		ops = append(ops, op{3, c}, op{4, c})
 	}
 	ctx := context.Background()
@@ -110,6 +110,10 @@ func TestVerifC13Calibrate(t *testing.T) {
 				q := verifSQLOf(o.class, pos)
 				switch o.kind {
 				case 0:
+					if tx != nil {
+						mlog += "second-begin-skipped;" // rqlite begins at most one sql.Tx per connection use
+						continue
+					}
 					x, err := verifConnBeginTx(conn, ctx, nil)
 					if err == nil {
 						tx = x
@@ -181,6 +185,10 @@ func TestVerifC13Calibrate(t *testing.T) {
 				q := verifSQLOf(o.class, pos)
 				switch o.kind {
 				case 0:
+					if tx != nil {
+						rlog += "second-begin-skipped;"
+						continue
+					}
 					x, err := conn.BeginTx(ctx, nil)
 					if err == nil {
 						tx = x
@@ -252,9 +260,27 @@ func TestVerifC13Calibrate(t *testing.T) {
 			}
 		}
 	}
+	// StmtReadOnlyWithConn
+	{
+		d := verifC13OpenReal(false)
+		conn, _ := d.rwDB.Conn(ctx)
+		for c := 0; c < vNumClasses; c++ {
+			q := verifSQLOf(c, 2)
+			mro, merr := verifStmtReadOnly(d, q, conn)
+			rro, rerr := d.StmtReadOnlyWithConn(q, conn)
+			if mro != rro || fmt.Sprint(merr) != fmt.Sprint(rerr) {
+				t.Errorf("StmtReadOnlyWithConn(%q): model %v %v, real %v %v", q, mro, merr, rro, rerr)
+			}
+		}
+		conn.Close()
+		verifC13CloseNative(d)
+	}
 	maxLen := 3
 	if os.Getenv("VERIF_C13_CAL") == "4" {
 		maxLen = 4
+	}
+	if os.Getenv("VERIF_C13_CAL") == "2" {
+		maxLen = 2
 	}
 	rec = func(seq []op) {
 		if len(seq) > 0 {
